@@ -3118,6 +3118,9 @@ psf_open_file (SF_PRIVATE *psf, SF_INFO *sfinfo)
 		{	error = SFE_BAD_OPEN_FORMAT ;
 			goto error_exit ;
 			} ;
+
+		/* A new file has no frames, whatever the caller left in SF_INFO. */
+		psf->sf.frames = 0 ;
 		}
 	else if ((SF_CONTAINER (psf->sf.format)) != SF_FORMAT_RAW)
 	{	/* If type RAW has not been specified then need to figure out file type. */
